@@ -134,6 +134,9 @@ class Engine:
 					ctx.fail('property', f'{net.name}.{type_name}: {typedef["base"]}Factory does not return the same type and value ({status})', dict(ident, decoded=decoded))
 				ctx.count('factory-decodes')
 
+			if 0 == index % 2:
+				self.check_object_histories(type_name, case)
+
 			# model vs implementation
 			enc, size, rendered = answers[stride * index: stride * index + 3]
 			if enc is not None:
@@ -237,6 +240,60 @@ class Engine:
 		if bytes(obj2.serialize()) != again:
 			ctx.fail('property', f'{self.net.name}.{type_name}: second re-encoding differs from the first', info, signature=ded_signature(self.net.name, type_name, 're-encode-differs'))
 		ctx.count('ded-checked')
+
+	def check_object_histories(self, type_name, case):
+		"""What a codec object answers must depend on its current contents only, and decoding must hand out an independent value:
+		observing an object (size, str, to_json, serialize) does not change its encoding; a value decoded from a mutable buffer keeps
+		its encoding when the caller scribbles over that buffer afterwards; two values decoded from the same bytes do not share
+		their arrays; fresh default instances do not share theirs."""
+		ctx, net = self.ctx, self.net
+		typedef = net.types[type_name]
+		if 'struct' != typedef['k'] or typedef['abstract']:
+			return
+		obj, data = case['obj'], case['data']
+		ident = {'network': net.name, 'type': type_name, 'value': case['value'], 'bytes': data.hex().upper()}
+		cls = net.cls(type_name)
+		try:
+			_ = obj.size
+			str(obj)
+			if hasattr(obj, 'to_json'):
+				obj.to_json()
+			again = bytes(obj.serialize())
+			if again != data:
+				ctx.fail('property', f'{net.name}.{type_name}: serialize() answers differently after size / str / to_json / serialize were called on the object', ident)
+			buffer = bytearray(data)
+			decoded = codec.guarded(cls.deserialize, buffer)
+			for index in range(len(buffer)):
+				buffer[index] ^= 0xFF
+			if bytes(decoded.serialize()) != data:
+				ctx.fail('property', f'{net.name}.{type_name}: a value decoded from a bytearray changes when the caller overwrites that bytearray afterwards', ident)
+			view_source = bytearray(data)
+			decoded_view = codec.guarded(cls.deserialize, memoryview(view_source))
+			view_source[:] = bytes(len(view_source))
+			if bytes(decoded_view.serialize()) != data:
+				ctx.fail('property', f'{net.name}.{type_name}: a value decoded from a memoryview changes when the underlying buffer is overwritten afterwards', ident)
+			arrays = [codec.fix_name(field['name']) for field in typedef['fields'] if 'array' == field['kind']['k']]
+			first, second = codec.guarded(cls.deserialize, data), codec.guarded(cls.deserialize, data)
+			for attribute in arrays:
+				items = getattr(first, attribute, None)
+				if isinstance(items, list):
+					items.clear()
+			if bytes(second.serialize()) != data:
+				ctx.fail('property', f'{net.name}.{type_name}: two values decoded from the same bytes share an array (clearing it in one changes the other)', ident)
+			fresh = cls()
+			for attribute in arrays:
+				items = getattr(fresh, attribute, None)
+				if isinstance(items, list) and getattr(obj, attribute, None):
+					items.append(getattr(obj, attribute)[0])
+			other = cls()
+			for attribute in arrays:
+				if isinstance(getattr(other, attribute, None), list) and getattr(other, attribute):
+					ctx.fail('property', f'{net.name}.{type_name}: default-constructed instances share the array {attribute}', ident)
+			ctx.count('object-histories')
+		except codec.Timeout:
+			ctx.count('history-timeouts')
+		except Exception as ex:  # pylint: disable=broad-except
+			ctx.fail('property', f'{net.name}.{type_name}: a history of harmless operations on a valid object raises {type(ex).__name__}: {ex}', ident)
 
 	def reorder_mutants(self, type_name, obj, data, spans):
 		"""Encodings in which the elements of one array member are rearranged (two neighbours swapped - the first pair, a later
